@@ -142,9 +142,10 @@ def write_case(case, d, order=None, with_empty=False):
     return args
 
 
-def relpath_of(case, s):
+def relpath_of(case, s, remap=None):
     lm = case["looms"][s["loom"]]
-    return "loom.%s/proc.%d/thread.%d" % (lm["name"], s["pid"], s["tid"])
+    p = "loom.%s/proc.%d/thread.%d" % (lm["name"], s["pid"], s["tid"])
+    return (remap or {}).get(p, p)
 
 
 def check_emu_log(case, tdir):
@@ -215,12 +216,24 @@ def check_emu_log(case, tdir):
     return None
 
 
-def check_dump(case, text, with_empty):
+def _unmap(text, remap):
+    """Dump text with the stream paths of a re-arranged layout turned back into the usual ones."""
+    if not remap:
+        return text
+    inv = {v: k for k, v in remap.items()}
+    out = []
+    for l in text.split("\n"):
+        f = l.split(" ")
+        out.append(" ".join(inv.get(x, x) for x in f))
+    return "\n".join(out)
+
+
+def check_dump(case, text, with_empty, remap=None):
     lines = [l for l in text.split("\n") if l.strip()]
     exp = {}
     total = 0
     for s in case["streams"]:
-        exp[relpath_of(case, s)] = [(c, m, p) for (c, m, p, _) in s["events"]]
+        exp[relpath_of(case, s, remap)] = [(c, m, p) for (c, m, p, _) in s["events"]]
         total += len(s["events"])
     if len(lines) != total:
         return "dump-count", "ovnidump printed %d events, the streams hold %d" % (len(lines), total)
@@ -312,6 +325,22 @@ def run_case(i):
                 shutil.move(os.path.join(dB, lds[0]), os.path.join(dB + "-parts", lds[0]))
                 os.symlink(os.path.join(dB + "-parts", lds[0]), os.path.join(dB, lds[0]))
         out["symlinked"] = 1 if i % 6 in (1, 4) else 0
+        # "there are no imposed rules on how to organize the several streams into directories": in one
+        # case in six the first thread stream of every process lies in the process directory itself,
+        # the other thread directories inside it (a stream directory holding further streams)
+        remap = {}
+        if i % 6 == 3:
+            for ld in sorted(x for x in os.listdir(dB) if x.startswith("loom.")):
+                for pd in sorted(os.listdir(os.path.join(dB, ld))):
+                    pdir = os.path.join(dB, ld, pd)
+                    tds = sorted(x for x in os.listdir(pdir) if x.startswith("thread."))
+                    if not tds or tds[0] == "thread.999999":
+                        continue
+                    for f in ("stream.json", "stream.obs"):
+                        shutil.move(os.path.join(pdir, tds[0], f), os.path.join(pdir, f))
+                    os.rmdir(os.path.join(pdir, tds[0]))
+                    remap["%s/%s/%s" % (ld, pd, tds[0])] = "%s/%s" % (ld, pd)
+        out["nested_layout"] = 1 if remap else 0
         rB = emu.emu(b, pB, argsB, nofile=nofile)
         if not emu.accepted(rB):
             out["viol"] = ("emulator-rejects:other-enumeration-order", emu.last_error(rB), rB.brief()); return out
@@ -332,12 +361,12 @@ def run_case(i):
             if rd.rc != 0 or rd.sig:
                 out["viol"] = ("dump-fails", "ovnidump rc=%s sig=%s: %s" % (rd.rc, rd.sig, rd.err[-300:]), rd.brief())
                 return out
-            v = check_dump(case, rd.out, we)
+            v = check_dump(case, rd.out, we, remap if d is dB else None)
             if v:
                 out["viol"] = (v[0], v[1], {}); return out
             if d is dA:
                 dumpA = rd.out
-            elif not we and rd.out != dumpA:
+            elif not we and _unmap(rd.out, remap) != dumpA:
                 out["viol"] = ("dump-enumeration-order-dependence", "ovnidump output differs between directory orders", {})
                 return out
             rt_ = emu.run_tool(b, "ovnitop", [dd], nofile=nofile)
@@ -471,7 +500,7 @@ def main(argv):
               "streams": [{"loom": s["loom"], "tid": s["tid"], "first_events": s["events"][:5]} for s in c0["streams"][:3]]}
     cov = {"evaluations": evaluated + nseq, "distinct_nontrivial": len(shapes) + nseq,
            "rule": "stream sets (1-12 streams, 1-3 looms with clock offsets, many equal corrected clocks inside and "
-                   "across streams, directories created in two orders on tmpfs and ext4, the second one reached through a symbolic link or holding a linked-in loom directory in a third of the cases) replayed by ovniemu, ovnidump "
+                   "across streams, directories created in two orders on tmpfs and ext4, the second one reached through a symbolic link or holding a linked-in loom directory in a third of the cases, one case in six with thread streams nested inside the stream directory of the process's first thread) replayed by ovniemu, ovnidump "
                    "-x and ovnitop; heap.h sequences (exhaustive insert/pop orders for small sizes over 3 key values + "
                    "random) under ASan+UBSan with structural invariant walks. distinct_nontrivial = distinct merge "
                    "shapes (streams>=2, looms, number of cross-stream ties>=1) + heap sequences run",
